@@ -153,11 +153,29 @@ def _run_lattice(ctx, case, st):
     ctx.note("rejected:lattice:" + str(e)[:60])
     return False, None
   K = layer.kernel.numpy().astype(np.float64)
-  W = K.reshape(sizes + [units])
   init = case["init"]
   ctx.cls("lattice:init=" + init, "lattice:bounds=" + case["bounds"], "units:%d" % units)
   from tensorflow_lattice.python import lattice_lib
   imin, imax = lattice_lib.default_init_params(case["omin"], case["omax"])
+  direct = case["seed"] % 4 == 1
+  if direct:
+    # the public helper behind the layer (also RTL's entry point), with an explicit initialization range inside the bounds:
+    # the kernel it produces has the same documented shape, over [init_min, init_max]
+    from tensorflow_lattice.python import lattice_layer as ll_
+    r_ = np.random.RandomState(case["seed"])
+    lo_, hi_ = imin, imax
+    a_ = lo_ + (hi_ - lo_) * float(r_.choice([0.0, 0.2, 0.5]))
+    b_ = a_ + (hi_ - a_) * float(r_.choice([0.25, 0.5, 1.0]))
+    try:
+      ini = ll_.create_kernel_initializer(init, lattice_sizes=sizes, monotonicities=mono, output_min=case["omin"], output_max=case["omax"],
+                                          unimodalities=unimod if any(unimod) else None, joint_unimodalities=None, init_min=a_, init_max=b_)
+      K = np.asarray(ini(shape=(int(np.prod(sizes)), units), dtype=tf.float32)).astype(np.float64)
+    except ValueError as e:
+      ctx.note("rejected:create_kernel_initializer:" + str(e)[:60])
+      return False, None
+    imin, imax = a_, b_
+    ctx.cls("lattice:create_kernel_initializer(init_min,init_max)")
+  W = K.reshape(sizes + [units])
   tol = core.REL_TOL * core.scale_of(K, [imin, imax])
   msgs = []
   if not np.all(np.isfinite(K)):
@@ -172,13 +190,14 @@ def _run_lattice(ctx, case, st):
     for d in range(rank):
       if (-np.diff(W, axis=d)).max() > tol:
         msgs.append("random monotonic init decreases along dim %d" % d)
-    # different seeds give different kernels (if there is any freedom)
-    tf.keras.utils.set_random_seed((case["seed"] + 1) % (2**31))
-    l2 = tfl.layers.Lattice(lattice_sizes=sizes, units=units, monotonicities=mono_arg, output_min=case["omin"], output_max=case["omax"],
-                            kernel_initializer=init)
-    l2.build((None, rank) if units == 1 else (None, units, rank))
-    if imax > imin and np.array_equal(l2.kernel.numpy(), layer.kernel.numpy()):
-      msgs.append("random monotonic init identical for two different seeds")
+    if not direct:
+      # different seeds give different kernels (if there is any freedom)
+      tf.keras.utils.set_random_seed((case["seed"] + 1) % (2**31))
+      l2 = tfl.layers.Lattice(lattice_sizes=sizes, units=units, monotonicities=mono_arg, output_min=case["omin"], output_max=case["omax"],
+                              kernel_initializer=init)
+      l2.build((None, rank) if units == 1 else (None, units, rank))
+      if imax > imin and np.array_equal(l2.kernel.numpy(), layer.kernel.numpy()):
+        msgs.append("random monotonic init identical for two different seeds")
   else:
     eff_mono = list(mono)
     if not any(mono) and not any(unimod):
@@ -208,7 +227,9 @@ def _run_lattice(ctx, case, st):
           msgs.append("init not constant along unconstrained dim %d" % d)
   if units > 1 and np.abs(K - K[:, :1]).max() > 0 and init != "random_monotonic_initializer":
     msgs.append("units initialised differently")
-  ctx.check("Lattice.init/shape", not msgs, "; ".join(msgs), info={"kernel": core.brief(K.tolist())})
+  ctx.check("Lattice.init/shape", not msgs, "; ".join(msgs), info={"kernel": core.brief(K.tolist()), "init_range": [imin, imax], "direct": direct})
+  if direct:
+    return bool(any(mono) or any(unimod) or imax > imin), None
   r = _assert_ok(ctx, "Lattice.init/assert_constraints", layer, "Lattice")
   if r is not True:
     ctx.check("Lattice.init/assert_constraints", False, "fresh Lattice fails its own assert_constraints(): %s" % r)
@@ -321,8 +342,16 @@ def _run_kfl(ctx, case, st):
   L, dims, units = case["L"], case["dims"], case["units"]
   tf.keras.utils.set_random_seed(case["seed"] % (2**31))
   try:
+    extra = {}
+    if case["seed"] % 3 == 2:
+      case = dict(case, omin=None, omax=None, bounds="none")       # (bounds are a statement about the library's own scale initializer)
+      # a scale of mixed signs across units and terms (any Keras initializer may be given for the scale): the library's
+      # kernel initializer takes the scale as an argument and orders each unit's and term's weights accordingly
+      import tf_keras
+      extra["scale_initializer"] = tf_keras.initializers.RandomUniform(-1.0, 1.0, seed=case["seed"] % 1000)
+      ctx.cls("kfl:scale=mixed-signs")
     layer = tfl.layers.KroneckerFactoredLattice(lattice_sizes=L, units=units, num_terms=case["terms"], monotonicities=case["mono"],
-                                                output_min=case["omin"], output_max=case["omax"], clip_inputs=case["clip"])
+                                                output_min=case["omin"], output_max=case["omax"], clip_inputs=case["clip"], **extra)
     g = np.linspace(0, L - 1, 2 * (L - 1) + 1) if not case["clip"] else np.linspace(-1, L, 2 * (L + 1) + 1)
     pts = np.array(list(itertools.product(g, repeat=dims)), dtype=np.float32)
     X = pts if units == 1 else np.repeat(pts[:, None, :], units, axis=1)
